@@ -292,12 +292,13 @@ def new_stats():
 
 
 def variants(scs, tier):
-    """thorough: two-URL / two-interface configurations and rewrite rules in append mode on shared handles, TURN over TCP."""
-    if tier != "thorough":
-        return []
+    """Two-URL / two-interface configurations, rewrite rules in append mode on shared handles, TURN over TCP
+    (quick: the short scenarios only)."""
     out = []
     for s in scs:
         if s["fault"] != "none" or any(x.get("nowait") for x in s["steps"]):
+            continue
+        if tier != "thorough" and len(s["steps"]) > 6:
             continue
         if s["site"] in ("srflx-own", "srflx-mux", "relay", "host-udp", "host-udpmux", "host-tcpmux"):
             out.append(dict(s, two=True))
@@ -353,8 +354,8 @@ def c09(tier, seed):
         model_check(work, stats, "ideal", [], MODEL_INVS_C09 + ["NoOverlap", "OneNilPerGeneration", "RestartIsolates"], cycles=2, restarts=1 if quick else 2, refused=1)
         r = model_check(work, stats, "ascoded", ALL_DEFECTS, MODEL_INVS_C09, cycles=2, restarts=1, refused=0)
         stats["model_counterexamples"] = sorted(set(r.invariants_violated))
-        scs = gen_scenarios(work, stats, "quiescent", cycles=2, restarts=1, refused=0, fail=True, maxenv=7 if quick else 9, nowait=False)
-        nw = [s for s in gen_scenarios(work, stats, "nowait", cycles=2, restarts=1, refused=0, fail=True, maxenv=6 if quick else 7, nowait=True)
+        scs = gen_scenarios(work, stats, "quiescent", cycles=2, restarts=1, refused=0, fail=True, maxenv=7 if quick else 10, nowait=False)
+        nw = [s for s in gen_scenarios(work, stats, "nowait", cycles=2, restarts=1, refused=0, fail=True, maxenv=6 if quick else 8, nowait=True)
               if any(x["nowait"] for x in s["steps"])]
         rnd = random.Random(seed)
         rnd.shuffle(nw)
